@@ -148,6 +148,7 @@ func c20(r *core.Report) {
 		return
 	}
 	c20Wrapper(r)
+	c20Gate(r)
 	c20Inv(r)
 	c20TypedNil(r)
 	resetScope(r, "C20.resetscope")
@@ -220,6 +221,123 @@ func c20Wrapper(r *core.Report) {
 				}
 			}
 			r.Check(good, key, p.Pos(fd.Pos()), "nil/empty wrapper rejected first", "the resolver dereferences its wrapper without rejecting nil first: `null` at this reference position makes loading panic")
+		}
+	})
+}
+
+// c20Gate: the loader is what stands between arbitrary decoded data and the code that runs on a
+// loaded document (Validate, the marshallers, InternalizeRefs rely on "every wrapper below was
+// seen by its resolver"). A resolver that reports success without going through what the object
+// holds leaves null entries and unresolved wrappers below it for that code to trip over.
+func c20Gate(r *core.Report) {
+	p := r.Prog
+	r.RunRule("C20.gate", "a resolver does not report success before it went through what the object holds: in every resolve*Ref of the Loader, a return that comes before the walk over the object's contents and is not an error return is reached only (a) because the wrapper is already resolved (`Value != nil`), (b) because the reference is being resolved further up (`!shouldVisitRef(...)`: filled in on the way back), (c) because the loader has this very object in a visited set of its own (comma-ok lookup in a field of the loader), (d) because there is no value to walk (`value == nil`), or (e) on the errMUST* sentinel of an empty target — not on a property of the decoded data such as `!pathItem.isEmpty()`", 20, func() {
+		info := p.Pkg("openapi3").TypesInfo
+		loaderT := p.NamedType("openapi3", "Loader")
+		for i := 0; i < loaderT.NumMethods(); i++ {
+			m := loaderT.Method(i)
+			if !strings.HasPrefix(m.Name(), "resolve") || !strings.HasSuffix(m.Name(), "Ref") || m.Name() == "resolveRef" {
+				continue
+			}
+			fd := p.Decl(m)
+			if fd.Type.Params.NumFields() < 3 || fd.Body == nil {
+				continue
+			}
+			recv := recvObj(info, fd)
+			// the walk over the contents starts at the first call of another resolver that is not
+			// inside the `if ref := x.Ref; ref != ""` block
+			walkStart := token.NoPos
+			var refBlock *ast.IfStmt
+			for _, st := range fd.Body.List {
+				if ifs, ok := st.(*ast.IfStmt); ok && ifs.Init != nil && strings.Contains(core.ExprStr(ifs.Cond), `ref != ""`) {
+					refBlock = ifs
+				}
+			}
+			ast.Inspect(fd.Body, func(nd ast.Node) bool {
+				if refBlock != nil && nd == ast.Node(refBlock) {
+					return false
+				}
+				if c, ok := nd.(*ast.CallExpr); ok && walkStart == token.NoPos {
+					if f := core.CalleeOf(info, c); f != nil && strings.HasPrefix(f.Name(), "resolve") {
+						walkStart = c.Pos()
+					}
+				}
+				return true
+			})
+			if walkStart == token.NoPos {
+				walkStart = fd.Body.End()
+			}
+			k := 0
+			ast.Inspect(fd.Body, func(nd ast.Node) bool {
+				if _, isLit := nd.(*ast.FuncLit); isLit {
+					return false
+				}
+				ret, ok := nd.(*ast.ReturnStmt)
+				if !ok || ret.Pos() > walkStart || ast.Stmt(ret) == fd.Body.List[len(fd.Body.List)-1] {
+					return true
+				}
+				// error returns: a non-nil operand, or a bare return / `return err` under err != nil
+				atoms := core.Atoms(core.GuardsAt(info, fd.Body, ret))
+				isErr := false
+				if len(ret.Results) == 1 && !core.IsNil(info, ret.Results[0]) {
+					if id, isID := ast.Unparen(ret.Results[0]).(*ast.Ident); !isID || id.Name != "err" {
+						isErr = true // errMUSTx, fmt.Errorf(...)
+					}
+				}
+				why := ""
+				for _, a := range atoms {
+					s := core.ExprStr(a.Expr)
+					switch x := ast.Unparen(a.Expr).(type) {
+					case *ast.BinaryExpr:
+						l := core.ExprStr(x.X)
+						switch {
+						case (l == "err" || l == "e") && core.IsNil(info, x.Y) && ((x.Op == token.NEQ && a.Pos) || (x.Op == token.EQL && !a.Pos)):
+							isErr = true
+						case strings.HasSuffix(l, ".Value") && core.IsNil(info, x.Y) && ((x.Op == token.NEQ && a.Pos) || (x.Op == token.EQL && !a.Pos)):
+							why = "already resolved"
+						case core.IsNil(info, x.Y) && ((x.Op == token.EQL && a.Pos) || (x.Op == token.NEQ && !a.Pos)):
+							why = "nothing to walk (" + s + ")"
+						case strings.HasPrefix(core.ExprStr(x.Y), "errMUST") && x.Op == token.EQL && a.Pos:
+							why = "empty target"
+						}
+					case *ast.CallExpr:
+						if f := core.CalleeOf(info, x); f != nil && f.Name() == "shouldVisitRef" && !a.Pos {
+							why = "being resolved further up"
+						}
+					case *ast.Ident:
+						// ok of `_, ok := loader.<field>[...]`
+						if a.Pos {
+							ff := core.NewFuncFacts(p, info, fd)
+							for _, as := range ff.Assigns(info.ObjectOf(x)) {
+								if as.MapIndex != nil {
+									if root := core.RootIdent(as.MapIndex.X); root != nil && info.ObjectOf(root) == recv {
+										why = "in a visited set of the loader"
+									}
+								}
+							}
+						}
+					}
+				}
+				if isErr {
+					return true
+				}
+				k++
+				key := fmt.Sprintf("gate:%s#%d", m.Name(), k)
+				if why != "" {
+					r.OK(key, p.Pos(ret.Pos()), why)
+				} else {
+					var conds []string
+					for _, a := range atoms {
+						pre := ""
+						if !a.Pos {
+							pre = "!"
+						}
+						conds = append(conds, pre+"("+core.ExprStr(a.Expr)+")")
+					}
+					r.Bad(key, p.Pos(ret.Pos()), fmt.Sprintf("%s reports success under %v without having gone through what the object holds: for a document that makes this condition true, nothing below the object is resolved or checked by the loader (null entries, unresolved wrappers), and Validate / the marshallers dereference it", m.Name(), conds))
+				}
+				return true
+			})
 		}
 	})
 }
